@@ -72,6 +72,11 @@ class Interp:
         v = self._ev(e, env)
         return None if v is NOTHING else v
 
+    def raw(self, e, env):
+        """value of an expression where the untyped null survives: a direct call or a plain variable (copying a variable that holds the
+        untyped null copies it, observed: typeof is 'undefined'); every operator, put/concat and print turn it into an ordinary null"""
+        return self._ev(e, env) if e[0] in ("call", "var") else self.ev(e, env)
+
     def _ev(self, e, env):
         k = e[0]
         if k == "int": return e[1]
@@ -124,7 +129,7 @@ class Interp:
         if k == "isnull":
             return self.ev(e[1], env) is None
         if k == "call":
-            return self.call(e[1], [self.ev(a, env) for a in e[2]])
+            return self.call(e[1], [self.raw(a, env) for a in e[2]])
         if k == "at":
             t = env.get(e[1]); i = self.ev(e[2], env)
             if t is None or i is None or not (0 <= i < len(t)):
@@ -188,11 +193,10 @@ class Interp:
             raise Limit()
         k = s[0]
         if k == "assign":
-            v = self._ev(s[2], env) if s[2][0] == "call" else self.ev(s[2], env)
+            v = self.raw(s[2], env)
             if v is NOTHING:
                 if s[1] in env.get("\0alias", {}) or s[1] in env.get("\0forvars", ()):
                     raise BlocError("fatal", "ANY")      # untyped null into a type-constrained control variable
-                v = None
             self.wr(env, s[1], list(v) if isinstance(v, list) else v)
         elif k == "print":
             vals = [self.ev(e, env) for e in s[2]]
@@ -285,7 +289,7 @@ class Interp:
         elif k == "continue": raise _Continue()
         elif k == "return":
             if s[1] is None: raise _Return(NOTHING)
-            raise _Return(self._ev(s[1], env) if s[1][0] == "call" else self.ev(s[1], env))
+            raise _Return(self.raw(s[1], env))
         elif k == "do":
             self.ev(s[1], env)
         elif k == "put":     # t.put(i, v)
